@@ -221,10 +221,42 @@ def union_rule(prog, rep):
             u = deep(repl[0].value.args[1], fi, stop=(last,))
             oky = isinstance(u, ast.Call) and isinstance(u.func, ast.Attribute) and u.func.attr == "union" and len(u.args) == 1 and {norm(u.func.value), norm(u.args[0])} == periods
         rep.check(bool(oky), "UNION", fi.short, "branches", "merge: last := union period; else: append", f"branches are merge={yes} / else={no}", fi.loc(ifs[0]))
-        # outputs cleared
-        clear = [l for l in loops if l is not lp and norm(l.iter) == acc and [norm(s) for s in l.body if not (isinstance(s, ast.Expr) and isinstance(s.value, ast.Constant))] == [f"{norm(l.target)}.data = {{}}"]]
-        rets = [s for s in body if isinstance(s, ast.Return)]
-        rep.check(len(clear) == 1 and len(rets) == 1 and norm(rets[0].value) == acc, "UNION", fi.short, "outputs data-less", "every output's data is cleared; outputs returned", "outputs are not all cleared of data / not returned as swept", fi.loc())
+        # outputs cleared: what is returned is one entry per swept output, each with its data set to {} (in place or on a copy)
+        from ..trace import map_desc
+
+        rets = [s_ for s_ in body if isinstance(s_, ast.Return)]
+        okc = False
+        if len(rets) == 1 and rets[0].value is not None:
+            rv = rets[0].value
+            clear_loops = []
+            for l in loops:
+                if l is lp or not isinstance(l.target, ast.Name) or norm(l.iter) != acc:
+                    continue
+                v0 = l.target.id
+                # the variable may be re-bound to a copy of itself before it is cleared
+                names = {v0}
+                cleared = False
+                fine = True
+                for st_ in l.body:
+                    if isinstance(st_, ast.Expr) and isinstance(st_.value, ast.Constant):
+                        continue
+                    if isinstance(st_, ast.Assign) and len(st_.targets) == 1 and isinstance(st_.targets[0], ast.Name) and isinstance(st_.value, ast.Call) and norm(st_.value.func) in ("deepcopy", "copy.deepcopy", "copy.copy") and norm(st_.value.args[0]) in names:
+                        names.add(st_.targets[0].id)
+                    elif isinstance(st_, ast.Assign) and len(st_.targets) == 1 and isinstance(st_.targets[0], ast.Attribute) and st_.targets[0].attr == "data" and norm(st_.targets[0].value) in names and isinstance(st_.value, ast.Dict) and not st_.value.keys:
+                        cleared = True
+                    elif isinstance(st_, ast.Expr) and isinstance(st_.value, ast.Call) and isinstance(st_.value.func, ast.Attribute) and st_.value.func.attr == "append" and len(st_.value.args) == 1 and norm(st_.value.args[0]) in names:
+                        pass
+                    else:
+                        fine = False
+                if cleared and fine:
+                    clear_loops.append(l)
+            if len(clear_loops) == 1:
+                if norm(rv) == acc:
+                    okc = True  # cleared in place, the swept list is returned
+                else:
+                    md = map_desc(fi, rv)
+                    okc = md is not None and md[0] == [] and md[1] == acc and md[3] is None
+        rep.check(okc, "UNION", fi.short, "outputs data-less", "every output's data is cleared; outputs returned", "outputs are not all cleared of data / not returned as swept", fi.loc())
     # third-party Timeslot.gap strictness (trusted base, looked at when the file is there)
     for cand in ("/venv/lib/python3.12/site-packages/timeslot/timeslot.py",):
         if os.path.exists(cand):
